@@ -111,6 +111,49 @@ let eval inp obs =
     { default_verdict with model_obs = mo; spec_ok = Some spec;
       model_spec_ok = peer_spec_ok par log && peer_spec_ok par (log_of maxj);
       nontrivial = List.exists (function PReq _ -> true | _ -> false) log }
+  | "T" :: par :: nruns :: rest ->
+    (* trace validation of the real ticker: chunk identities are encoded as op*16+id *)
+    let par = n_of_tok par in
+    let nops = List.length ops in
+    let rec script k l = if k = 0 then [] else match l with
+      | d :: s :: m :: r ->
+        let low = List.map (fun x -> Z.to_int (z_of_n x)) (ids_of_mask m) in
+        let ids = List.concat (List.init (nops + 1) (fun op -> List.map (fun i -> n_of_z (Z.of_int (op * 16 + i))) low)) in
+        ((bool_of_tok d, bool_of_tok s), ids) :: script (k - 1) r
+      | _ -> failwith "short script" in
+    let sc = script (int_of_string nruns) rest in
+    (* split the implementation's log into routine runs *)
+    let toks = List.filter (fun t -> t <> "E") obs in
+    let runs = List.fold_left (fun acc t -> match acc with
+        | cur :: more when t.[0] <> 'D' -> (t :: cur) :: more
+        | _ -> [t] :: acc) [] toks in
+    let runs = List.rev_map List.rev runs in
+    let op_of t = (* I<id>#<op>:<b> *)
+      match String.index_opt t '#' with
+      | Some i when t.[0] = 'I' ->
+        let j = String.index t ':' in
+        Some (int_of_string (String.sub t (i + 1) (j - i - 1)), int_of_string (String.sub t 1 (i - 1)))
+      | _ -> None in
+    let seen = ref (-1) and fifo_ok = ref true in
+    let events = List.map (fun run ->
+        let fresh = List.filter_map (fun t -> match op_of t with
+            | Some (op, id) when op > !seen -> Some (op, id) | _ -> None) run in
+        match fresh with
+        | [] -> PTick
+        | [(op, id)] -> if op <> !seen + 1 then fifo_ok := false; seen := op; PChunk (n_of_z (Z.of_int (op * 16 + id)))
+        | _ -> fifo_ok := false; PTick) runs in
+    let (_, log) = prun par (script_oracle sc) p_init events in
+    let tok_t = function
+      | PIsProc (id, b) -> let i = Z.to_int (z_of_n id) in Printf.sprintf "I%d#%d:%s" (i mod 16) (i / 16) (tok_of_bool b)
+      | e -> tok_of_pev e in
+    let mo = List.map tok_t log @ ["E"] in
+    let strip t = match String.index_opt t '#' with
+      | Some i when t.[0] = 'I' -> String.sub t 0 i ^ String.sub t (String.index t ':') (String.length t - String.index t ':')
+      | _ -> t in
+    let impl_log = (try Some (List.map (fun t -> pev_of (strip t)) toks) with _ -> None) in
+    let spec = (match impl_log with Some l -> peer_spec_ok par l && !fifo_ok | None -> false) in
+    { default_verdict with model_obs = mo; spec_ok = Some spec; model_spec_ok = peer_spec_ok par log;
+      nontrivial = List.exists (fun e -> e = PTick) events && List.exists (function PReq _ -> true | _ -> false) log }
   | _ -> failwith "bad case"
 
 let () = run eval
